@@ -2,19 +2,50 @@
 from kani import Harness as H
 
 MEMCMP = (r"^memcmp", 14)
-
-def harnesses(prop, tier):
-    return [h for h in ALL if h.prop == prop and tier in h.tiers]
+VMAP = (r"verif_map", 4)
+OPS = ((0, "add"), (1, "sub"), (2, "mul"), (3, "div"))
 
 ALL = []
 
+
+def harnesses(prop, tier):
+    return [h for h in ALL if h.prop == prop and tier in h.tiers and h.kani]
+
+
 def add(*hs):
     ALL.extend(hs)
+
+
+# ----------------------------------------------------------------------------- C02 / C13: NumberItem::calculate
+for k, nm in OPS:
+    add(H("C02", "c02_number_%s" % nm, "verif_k::c05::number_arith", str(k), unwindset=(MEMCMP,), timeout=300,
+          about="NumberItem::calculate %s on all f64 pairs and NumberTypes: result is a NumberItem%s" % (nm, " with the bit-exact IEEE value" if k < 2 else " (value: engine M)")))
+    add(H("C13", "c13_number_%s_keeps_type" % nm, "verif_k::c05::number_arith", str(k), unwindset=(MEMCMP,), timeout=300,
+          about="NumberItem::calculate %s keeps the left operand's NumberType (Hex/Octal/Binary/Raw/Decimal), all f64 pairs" % nm))
+
+# ----------------------------------------------------------------------------- C05 (kinds; formulas are engine M's)
+for b, nm in (("true", "add"), ("false", "sub")):
+    add(H("C05", "c05_number_%s_percent_kind" % nm, "verif_k::c05::number_pm_percent", b, unwindset=(MEMCMP,), timeout=300,
+          about="NumberItem %s PercentItem yields a plain number for all f64 (value: engine M)" % nm))
+    add(H("C05", "c05_money_%s_percent_kind" % nm, "verif_k::c05::money_pm_percent", b, unwindset=(MEMCMP,), stubs=("log", "fmt", "drop"), timeout=300,
+          about="MoneyItem %s PercentItem yields money in the same currency for all f64 (value: engine M)" % nm))
+
+# ----------------------------------------------------------------------------- C06 (kinds and currencies)
+for k, nm in ((0, "add"), (1, "sub"), (3, "div")):
+    add(H("C06", "c06_money_%s_money_kind" % nm, "verif_k::c05::money_money", str(k), unwindset=(MEMCMP, VMAP), stubs=("log", "fmt", "drop"), timeout=300,
+          about="MoneyItem %s MoneyItem of another currency (symbolic rates): result is money in the LEFT currency (+,-) / a plain number (/)" % nm))
+for k, nm in OPS:
+    add(H("C06", "c06_money_%s_number" % nm, "verif_k::c05::money_number", str(k), unwindset=(MEMCMP,), stubs=("log", "fmt", "drop"), timeout=300,
+          about="MoneyItem %s NumberItem: currency kept%s; all f64 pairs" % (nm, ", bit-exact IEEE value" if k < 2 else "")))
 
 # ----------------------------------------------------------------------------- C09
 for op, txt in (("true", "add"), ("false", "sub")):
     add(H("C09", "c09_days_lt30_%s" % txt, "verif_k::c09::date_days_lt30", op, unwindset=(MEMCMP,), timeout=900,
           about="DateItem::calculate: every date of years 1..9999 %s n days, 0<=n<30, is the calendar date exactly n days away" % txt))
+
+# ----------------------------------------------------------------------------- replay-only bodies (engine M/D counterexamples)
+for k in (0, 1, 2):
+    add(H("REPLAY", "m_replay_percent_rule_%d" % k, "verif_k::c05::m_replay_percent_rule", str(k), kani=False))
 
 # ----------------------------------------------------------------------------- driver self tests
 add(H("SELF", "selftest_pass", "verif_k::c09::selftest_pass", "", timeout=120, about="driver self-test (passes)"))
